@@ -6,6 +6,11 @@ THOROUGH_SEEDS = 6
 
 
 def cases(tier, seed):
+    from .C03 import add_via
+    return add_via(_cases(tier, seed), 6 if tier == 'quick' else 4, ('ttm_matvec', 'ttm_vecmat', 'ttm_matmat', 'ttm_dense_matvec', 'ttm_transpose', 'ttm_binop', 'ttm_scalar'))
+
+
+def _cases(tier, seed):
     rng = random.Random(seed + 4)
     th = tier == 'thorough'
     cs = []
